@@ -284,8 +284,12 @@ def apply_writes(I, con, spec, views):
             old = ctx.field_array(fname)
             new = fresh("H_%s" % fname, old.sort())
             x = z3.Int("wx")
-            ctx.assume(z3.ForAll([x], z3.Implies(z3.Not(pred(x)), z3.Select(new, x) == z3.Select(old, x))))
-            ctx.heap[fname] = new
+            if getattr(ctx.E, "bounded", None) is not None:
+                # refutation mode: the havocked array as a lambda term instead of a quantified frame axiom
+                ctx.heap[fname] = z3.Lambda([x], z3.If(pred(x), z3.Select(new, x), z3.Select(old, x)))
+            else:
+                ctx.assume(z3.ForAll([x], z3.Implies(z3.Not(pred(x)), z3.Select(new, x) == z3.Select(old, x))))
+                ctx.heap[fname] = new
         else:
             objv, fname = w
             idt = objv.id if hasattr(objv, "id") else Z.Val.id(_term(objv))
